@@ -1,2 +1,3 @@
 //! Reference models (textbook semantics; share no code with the crate).
+pub mod cpc;
 pub mod hll;
